@@ -12,11 +12,12 @@ done = set()
 if os.path.exists(donef):
     for l in open(donef):
         done.add(json.loads(l)["seed"])
-for d in sorted(glob.glob(os.path.join(root, "seed_C*", "[AB]"))):
+for d in sorted(glob.glob(os.path.join(root, "seed_*C[0-9][0-9]", "[AB]"))):
     if not os.path.exists(os.path.join(d, "patch.diff")) or not os.path.exists(os.path.join(d, "demo_test.go")):
         continue
-    pid = os.path.basename(os.path.dirname(d)).replace("seed_", "")
-    name = pid + "/" + os.path.basename(d)
+    base = os.path.basename(os.path.dirname(d)).replace("seed_", "")
+    pid = base[-3:]
+    name = base + "/" + os.path.basename(d)
     if name in done or (len(sys.argv) > 2 and pid not in sys.argv[2:]):
         continue
     c = subprocess.run(["/verif/selftest/confirm_seed.sh", d], stdout=subprocess.PIPE, stderr=subprocess.STDOUT, text=True).stdout
